@@ -43,6 +43,21 @@ P = {
  "C20": ("exhaustive truth table over domain member lists (326 orderings, 3905 sequences, type substitutions, foreign fields) + generated mixtures",
          "Exploration with exhaustive core: accepted <=> well-formed per the property for every enumerated domain type; accepted ones hash to the reference domain separator; refusal is independent of the message.",
          "sha3 Keccak."),
+ "C11": ("CLI proptest over chain-id classes x modes x override flag with strict RLP decode, exact-integer v check, reference recovery and a cross-chain metamorphic relation; in-process Signature::v sweep; thorough repeats on the plain release build",
+         "Exploration: no chain id without the flag is refused with empty stdout; v == 35+2c+yParity exactly (arbitrary-precision) for every generated c up to the largest representable; the signature recovers to the reference-derived signer over the reference EIP-155 digest and never under another chain id; typed transactions carry c first; c above the bound is an ordinary error, never a panic or wrapped v.",
+         "Reference BIP-39/BIP-32/secp256k1 stack; exit-status classification by the kernel."),
+ "C14": ("proptest + enumerated boundary grid over path text against an independent byte-level scanner and the BIP-32 reference; Path::for_index sweep; CLI sample; libFuzzer path target in thorough",
+         "Exploration: canonical text parses, prints back identically and derives the reference key; any component >= 2^31, empty/non-numeric components and a missing root are refused without panic; for_index(i) is m/44'/60'/0'/0/i below 2^31 and an error above; the CLI agrees.",
+         "Leading '+'/zeros and a bare 'm' are unspecified (no panic, self-consistent if accepted)."),
+ "C15": ("proptest over real and synthetic signatures, exhaustive sweeps (every length 0..140, all final bytes, 10x10 boundary scalars, non-hex at every position) against an independent reading of signature text; CLI sign->hash pipeline judged by strict RLP decode and reference Keccak; libFuzzer signature target in thorough",
+         "Exploration: printed text is 0x+r+s+v and parses back (with and without 0x) to an equal signature; every malformed text is refused without panic; hash transaction --signature of sign --signature-only output equals Keccak of the full signed transaction.",
+         "Upper-case digits, 0X and high-s are unspecified."),
+ "C17": ("three layers: proptest over every library entry point with valid/mutated/random inputs under catch_unwind; libFuzzer corpus replay (quick) and 5 campaigns (thorough); generated argv/env/stdin for every subcommand judged by exit status",
+         "Exploration: no generated input made a library entry point panic or a CLI run exit with anything but 0/2/255; watchdog expiry is reported as inconclusive.",
+         "Termination is judged against 10 s / 60 s watchdogs; vanity prefixes are bounded to 3 digits and -j to 64 as the property states."),
+ "C19": ("proptest + exhaustive sweeps (all lengths, all byte values, all two-digit spellings, every byte value as intruder) of CLI hex encode/decode against an independent decoder written from the property, over stdin/-/file channels",
+         "Exploration: encode prints 0x + lower-case digits; decode inverts it byte-exactly; all white-space/case/prefix layouts decode equally; odd or non-hex input fails with empty stdout.",
+         "Non-ASCII white space, white space inside the prefix and 0X are unspecified."),
 }
 BUILT = [k for k in sorted(P)]
 
